@@ -384,6 +384,20 @@ mod kani_c06 {
         tcp_opt_rt(opt);
     }
 
+    /// TcpRepr::emit hands the whole padding space (1..=3 octets) to EndOfList.emit and relies on it being filled: the emitted
+    /// header must not depend on what the buffer held before
+    #[kani::proof] #[kani::unwind(5)]
+    fn c06_tcpopt_eol_fills_padding() {
+        let mut a: [u8; 3] = kani::any();
+        let n: usize = kani::any();
+        kani::assume(1 <= n && n <= 3); // tag: range
+        let rest_len = TcpOption::EndOfList.emit(&mut a[..n]).len();
+        kani::cover!(n == 3, "three octets of padding reachable");
+        assert!(rest_len == n - 1, "C06.tcpopt: the end-of-list marker itself is one octet");
+        let i: usize = kani::any();
+        if i < n { assert!(a[i] == 0, "C06.tcpopt: padding behind the end-of-list marker is initialised, emitted bytes do not depend on prior buffer content"); }
+    }
+
     #[kani::proof] #[kani::unwind(5)]
     fn c06_tcpopt_emit_parse_sack() {
         let k: usize = kani::any();
